@@ -255,6 +255,9 @@ class map_impl {
     std::ofstream os(rank_fname, std::ios::binary);
     cereal::JSONOutputArchive oarchive(os);
     oarchive(m_local_map, m_default_value, m_comm.size());
+    // No rank may change the container before every rank has captured its
+    // image.
+    m_comm.cf_barrier();
   }
 
   void deserialize(const std::string &fname) {
@@ -272,6 +275,8 @@ class map_impl {
           "Attempting to deserialize map_impl using communicator of "
           "different size than serialized with");
     }
+    // No rank may use the container before every rank has loaded its image.
+    m_comm.cf_barrier();
   }
 
   int owner(const key_type &key) const {
